@@ -33,6 +33,8 @@ pub enum Ty {
   Addr(Box<Ty>),
   /// a Vec<T> together with its contents (count, bytes): used where a function fills a fresh vector
   BVec(Box<Ty>),
+  /// a local closure `|x: T| body` bound by `let`: parameter types and result type (always monadic in the model)
+  Fn(Vec<Ty>, Box<Ty>),
   BoxBytes,
   Layout,
   Unknown,
@@ -194,6 +196,7 @@ pub fn coq_type(t: &Ty) -> Result<String, String> {
     Ty::BVec(_) => "bvec".into(),
     Ty::BoxBytes => "boxbytes".into(),
     Ty::Layout => "layout".into(),
+    Ty::Fn(_, _) => return Err("a closure has no first-order type in the model".into()),
     Ty::Unknown => return Err("unknown type".into()),
   })
 }
